@@ -176,13 +176,20 @@ def rule_drain_keeps_live(ctx, c, rule):
         return
     b, cf, agg = rs
     recv = [x for x in cf.calls_re(r"spsc::Receiver::<T>::try_recv$") if not cf.blocks[x]["cleanup"]]
-    if len(recv) != 1:
-        ctx.fail(rule, cf.path, cf.span, "the drain closure calls try_recv at exactly one site", "found %d" % len(recv), extra="recv")
+    if not recv:
+        ctx.fail(rule, cf.path, cf.span, "the drain closure calls try_recv", "found no call site", extra="recv")
         return
-    T = recv[0]
-    res = cf.term(T)["dest"]["l"]
+    if len(recv) > 1:
+        # `let mut r = rx.try_recv(); while let Ok(Some(c)) = r { ..; r = rx.try_recv(); }`: several polling sites feeding one result;
+        # every site's result must be tested before the closure returns or polls again
+        for T in recv:
+            if not result_switches(cf, T, "Result<"):
+                ctx.fail(rule, cf.path, cf.loc(T), "every try_recv result in the drain closure is tested",
+                         "the result of the call at %s is not matched on" % cf.loc(T), extra="recv")
+                return
+    rset = set(recv)
     # assignments to the return place
-    ret_false, ret_true = [], []
+    ret_false, ret_true, ret_isok = [], [], []
 
     def ret_defs(local, depth):
         # constants reaching the return place, also through a local (`let keep = loop {.. break true ..}; keep`)
@@ -194,45 +201,75 @@ def rule_drain_keeps_live(ctx, c, rule):
             elif i != "term" and st["k"] == "assign" and not st["lhs"]["p"] and st["rv"]["k"] == "use" and depth > 0 \
                     and st["rv"]["op"]["k"] in ("copy", "move") and not st["rv"]["op"]["p"]:
                 ret_defs(st["rv"]["op"]["l"], depth - 1)
+            elif i == "term" and st["k"] == "call" and callee_is(st, r"core::result::Result::<T, E>::is_ok$") and st["args"] and \
+                    any(v[0] == "call" and "try_recv" in v[1] for o in c.prov.of_operand(cf, st["args"][0]) for v in o.via):
+                ret_isok.append(bi)      # `polled.is_ok()`: false exactly for Err(closed); true must be shown to mean Ok(None)
             else:
                 ctx.fail(rule, cf.path, cf.loc(bi), "the drain closure returns a constant per arm",
                          "non-constant return value", extra="ret")
     ret_defs(0, 3)
     err_edges, ok_edges, none_edges, some_edges = set(), set(), set(), set()
     cmd_switch = None
-    for sb in result_switches(cf, T, "Result<"):
-        err_edges |= set(cf.variant_edges(sb, ["Err"]))
-        ok_edges |= set(cf.variant_edges(sb, ["Ok"]))
-    for sb in result_switches(cf, T, "Option<", proj=["@Ok", ".0"]):
-        none_edges |= set(cf.variant_edges(sb, ["None"]))
-        some_edges |= set(cf.variant_edges(sb, ["Some"]))
-    for sb in result_switches(cf, T, "CollectCommand", proj=["@Ok", ".0", "@Some", ".0"]):
-        cmd_switch = sb
+    for T in recv:
+        for sb in result_switches(cf, T, "Result<"):
+            err_edges |= set(cf.variant_edges(sb, ["Err"]))
+            ok_edges |= set(cf.variant_edges(sb, ["Ok"]))
+        for sb in result_switches(cf, T, "Option<", proj=["@Ok", ".0"]):
+            none_edges |= set(cf.variant_edges(sb, ["None"]))
+            some_edges |= set(cf.variant_edges(sb, ["Some"]))
+        for sb in result_switches(cf, T, "CollectCommand", proj=["@Ok", ".0", "@Some", ".0"]):
+            cmd_switch = sb
     if cmd_switch is None:
         # the command may have been moved into a local before it is matched
         from .core import first_switches
-        for sb in first_switches(cf, cf.term(T)["target"], lambda i: i.get("kind") == "discr" and i["ty"].endswith("command::CollectCommand")):
-            cmd_switch = sb
-    ctx.check(bool(ret_false) and cf.guarded(ret_false, err_edges), rule, cf.path, cf.loc(ret_false[0]) if ret_false else cf.span,
-              "a receiver is removed (closure returns false) only when try_recv reported the channel closed",
-              "`false` at %s guarded by the Err edge" % [cf.loc(x) for x in ret_false],
-              "`_0 = false` at %s is reachable without crossing the Err edge of try_recv's result (a live receiver "
-              "would be unregistered after a drain and its thread's later spans lost)" % [cf.loc(x) for x in ret_false],
-              extra="false")
-    ctx.check(bool(ret_true) and cf.guarded(ret_true, none_edges) and cf.guarded(ret_true, ok_edges), rule, cf.path,
-              cf.loc(ret_true[0]) if ret_true else cf.span,
-              "a receiver is kept (closure returns true) only when try_recv reported an empty, open channel",
-              "`true` at %s guarded by Ok and None edges" % [cf.loc(x) for x in ret_true],
-              "`_0 = true` is reachable outside the Ok(None) arm (a closed channel would be kept forever)", extra="true")
-    # closed channels are removed: from the Err edge every path returns false
-    if err_edges:
-        starts = [d for (_, d, _) in err_edges]
-        r = cf.reach(starts)
-        ctx.check(not (r & set(ret_true)) and bool(r & set(ret_false)), rule, cf.path, cf.span,
-                  "on Err(ChannelClosed) the receiver is dropped from the registry", "",
-                  "the Err arm can return true", extra="closed")
+        for T in recv:
+            for sb in first_switches(cf, cf.term(T)["target"], lambda i: i.get("kind") == "discr" and i["ty"].endswith("command::CollectCommand")):
+                cmd_switch = sb
+    if ret_isok and not (ret_false or ret_true):
+        # the answer is `result.is_ok()`: it is false exactly when the channel is closed; it must not be true for Ok(Some(_)), i.e.
+        # the return is reached from a poll only across the Err or the None edge of that poll's result
+        targets = [cf.term(T)["target"] for T in recv]
+        r = cf.reach(targets, avoid_edges=err_edges | none_edges, avoid_blocks=recv)
+        ctx.check(bool(err_edges), rule, cf.path, cf.loc(ret_isok[0]),
+                  "a receiver is removed (closure returns false) only when try_recv reported the channel closed",
+                  "the closure returns is_ok() of the last try_recv result", "no Err edge on the polled result", extra="false")
+        ctx.check(bool(none_edges) and not (r & set(ret_isok)), rule, cf.path, cf.loc(ret_isok[0]),
+                  "a receiver is kept (closure returns true) only when try_recv reported an empty, open channel",
+                  "is_ok() at %s is reached from a poll only across its Err / None edges" % [cf.loc(x) for x in ret_isok],
+                  "`result.is_ok()` is reachable from a poll without crossing the None or Err edge of its result: an unread "
+                  "command would be left behind (or a closed channel kept)", extra="true")
+        ctx.check(True, rule, cf.path, cf.span, "on Err(ChannelClosed) the receiver is dropped from the registry",
+                  "is_ok() is false for Err", "", extra="closed")
     else:
-        ctx.fail(rule, cf.path, cf.span, "the drain closure distinguishes Err(ChannelClosed)", "no Err edge found", extra="closed")
+        if ret_isok:
+            ctx.fail(rule, cf.path, cf.loc(ret_isok[0]), "the drain closure returns a constant per arm",
+                     "mixes constant answers and result.is_ok()", extra="ret")
+        ctx.check(bool(ret_false) and cf.guarded(ret_false, err_edges), rule, cf.path, cf.loc(ret_false[0]) if ret_false else cf.span,
+                  "a receiver is removed (closure returns false) only when try_recv reported the channel closed",
+                  "`false` at %s guarded by the Err edge" % [cf.loc(x) for x in ret_false],
+                  "`_0 = false` at %s is reachable without crossing the Err edge of try_recv's result (a live receiver "
+                  "would be unregistered after a drain and its thread's later spans lost)" % [cf.loc(x) for x in ret_false],
+                  extra="false")
+        ctx.check(bool(ret_true) and cf.guarded(ret_true, none_edges) and cf.guarded(ret_true, ok_edges), rule, cf.path,
+                  cf.loc(ret_true[0]) if ret_true else cf.span,
+                  "a receiver is kept (closure returns true) only when try_recv reported an empty, open channel",
+                  "`true` at %s guarded by Ok and None edges" % [cf.loc(x) for x in ret_true],
+                  "`_0 = true` is reachable outside the Ok(None) arm (a closed channel would be kept forever)", extra="true")
+        if len(recv) > 1 and ret_true:
+            # with several polling sites "crossed a None edge at some time" is not enough: no poll may lie between the None edge and the answer
+            r = cf.reach([cf.term(T)["target"] for T in recv], avoid_edges=err_edges | none_edges, avoid_blocks=recv)
+            ctx.check(not (r & set(ret_true)) and not (r & set(ret_false)), rule, cf.path, cf.loc(ret_true[0]),
+                      "the answer of the drain closure is decided by the last poll", "",
+                      "an answer is reachable from a poll without crossing the None / Err edge of that poll's result", extra="last-poll")
+        # closed channels are removed: from the Err edge every path returns false
+        if err_edges:
+            starts = [d for (_, d, _) in err_edges]
+            r = cf.reach(starts)
+            ctx.check(not (r & set(ret_true)) and bool(r & set(ret_false)), rule, cf.path, cf.span,
+                      "on Err(ChannelClosed) the receiver is dropped from the registry", "",
+                      "the Err arm can return true", extra="closed")
+        else:
+            ctx.fail(rule, cf.path, cf.span, "the drain closure distinguishes Err(ChannelClosed)", "no Err edge found", extra="closed")
     # every command kind is forwarded to its scratch vector, then the loop continues
     if cmd_switch is None:
         ctx.fail(rule, cf.path, cf.span, "the drain closure dispatches on the command kind", "no match on CollectCommand", extra="dispatch")
@@ -244,8 +281,8 @@ def rule_drain_keeps_live(ctx, c, rule):
         pushes = [x for x in cf.calls_re(r"alloc::vec::Vec::<T, A>::push$")
                   if ("command::%s>" % vname) in cf.term(x)["arg_tys"][0] and not cf.blocks[x]["cleanup"]]
         starts = [d for (_, d, _) in edges]
-        r = cf.reach(starts, avoid_blocks=pushes) if starts else {T}
-        lost = (T in r) or bool(r & set(cf.returns()))
+        r = cf.reach(starts, avoid_blocks=pushes) if starts else set(rset)
+        lost = bool(r & rset) or bool(r & set(cf.returns()))
         fed = False
         for x in pushes:
             src = c.prov.of_operand(cf, cf.term(x)["args"][1])
@@ -258,7 +295,7 @@ def rule_drain_keeps_live(ctx, c, rule):
                   extra="fwd-" + vname)
         # the arm loops (does not return): the channel is drained to empty each cycle
         r2 = cf.reach(starts) if starts else set()
-        ctx.check(T in r2, rule, cf.path, cf.loc(cmd_switch), "after a %s the drain loop continues" % vname, "",
+        ctx.check(bool(r2 & rset), rule, cf.path, cf.loc(cmd_switch), "after a %s the drain loop continues" % vname, "",
                   "arm %s leaves the loop" % vname, extra="loop-" + vname)
     ctx.floor(rule, cf.path, n, 4, "command kinds dispatched")
 
